@@ -84,6 +84,7 @@ def build() -> dict:
                 "excessK": "Offset" in f,
                 "hasRange": False, "lo": sm(0), "hi": sm(0), "sentinelInRange": False,
                 "resNum": 1, "resDen": 1, "zeroOk": False,
+                "lenField": f.get("BitLengthField", 0),      # order of the field that carries this field's bit length
             }
             if kind == "float":
                 rec["zeroOk"] = frac(f.get("RangeMin", 0)) <= 0 <= frac(f.get("RangeMax", 0))
